@@ -3,9 +3,12 @@
 
     The harness dumps, immediately before every request, the wallet's
     candidate outputs (wtxmgr [UnspentOutputs] with the attributes the wallet
-    derives from each script through its address manager), the request and
-    the in-memory lock set; and afterwards the inputs of the created
-    transaction or the class of the error. *)
+    derives from each script through its address manager: key scope as the
+    pair (purpose, coin type), account), the request, the in-memory lock set
+    and the wallet's own [IsWatchOnlyAccount] answer for the selection scope;
+    and afterwards the inputs of the created transaction, or that the call
+    returned an error and created nothing.  Errors are not classified by their
+    text: the property only says which requests must NOT succeed. *)
 From stdpp Require Import gmap list numbers sorting.
 From Coq Require Import ZArith NArith.
 From Verif Require Import Tx.Store Select.Eligible.
@@ -13,23 +16,22 @@ Local Open Scope Z_scope.
 
 Inductive outcome :=
 | ROk (ins : list outpoint)        (* inputs of the created transaction, in order *)
-| RRefusedSelection                (* error raised by the explicit selection loop *)
-| ROtherError.                     (* any other error (insufficient funds, dust output, ...) *)
+| RError.                          (* an error, and no transaction created, recorded or sent *)
 
 Record creq := {
   q_cands : list cand;
   q_ctx : wctx;
   q_acct : N;
-  q_scope : option N;
+  q_scope : option kscope;
   q_minconf : Z;
   q_rate : Z;
   q_strategy : strategy;
   q_explicit : list outpoint;
   q_allow : option (list outpoint);  (* WithUtxoFilter: only these outpoints; None = no filter *)
   q_dry : bool;
-  q_sorted : bool;                   (* the API re-orders the inputs (FundPsbt sorts by BIP 69) *)
   q_outcome : outcome;
-  q_signed : bool;                   (* every input of the result carries a script or witness *)
+  q_signed : option bool;            (* every input of the result carries a script or witness; None = not
+                                        observable (FundPsbt strips the scripts of its inner creation) *)
 }.
 
 Definition request_of (q : creq) : request :=
@@ -55,17 +57,22 @@ Definition amount_of (cs : list cand) (op : outpoint) : Z :=
   | None => -1
   end.
 
-Definition same_ops (sorted : bool) (a b : list outpoint) : bool :=
-  if sorted then bool_decide (merge_sort op_le a = merge_sort op_le b)
-  else bool_decide (a = b).
+(** The inputs of an explicit selection are compared as multisets: their
+    order is not part of the property (FundPsbt re-orders by BIP 69; the
+    order of the other APIs is counted as a soft difference below). *)
+Definition same_ops (a b : list outpoint) : bool :=
+  bool_decide (merge_sort op_le a = merge_sort op_le b).
 
 (** Failure codes of one request (what the property is about):
      1 an input is outside the model's eligible set
      2 an input occurs twice
-     5 explicit selection: inputs differ from the model's selection result
-     6 signed / unsigned differs from [negb dry && negb watch_only]
-     7 the selection loop refused, the model's does not (or no selection was given)
-     8 another error, but the model's selection loop refuses *)
+     5 explicit selection: the inputs differ (as a multiset) from the model's
+       selection result, or the model's selection loop refuses
+     6 signed / unsigned differs from the model's sign / skip decision
+       [negb dry && negb (skip_signing ctx request inputs)]
+    An error of the implementation is never a failure here: refusing more
+    than the model does (insufficient funds, a dust output, ...) is not
+    against the property. *)
 Definition req_fail (q : creq) : list nat :=
   let r := request_of q in
   let x := q_ctx q in
@@ -74,27 +81,23 @@ Definition req_fail (q : creq) : list nat :=
   let flag (ok : bool) (code : nat) : list nat := if ok then [] else [code] in
   match q_outcome q with
   | ROk ins =>
-    flag (bool_decide (q_signed q = negb (q_dry q) && negb (x_watch_only x))) 6%nat ++
+    (* the model's inputs for the decision: the candidates named by the result *)
+    let chosen := omap (fun op => List.find (fun c => bool_decide (c_op c = op)) (q_cands q)) ins in
+    match q_signed q with
+    | Some sg => flag (bool_decide (sg = negb (q_dry q) && negb (skip_signing x r chosen))) 6%nat
+    | None => []
+    end ++
     match q_explicit q with
     | [] =>
       flag (forallb (fun op => bool_decide (op ∈ elig_ops)) ins) 1%nat ++
       flag (bool_decide (NoDup ins)) 2%nat
     | sel =>
       match explicit_select elig sel with
-      | Some l => flag (same_ops (q_sorted q) (map c_op l) ins) 5%nat
+      | Some l => flag (same_ops (map c_op l) ins) 5%nat
       | None => [5%nat]
       end
     end
-  | RRefusedSelection =>
-    match q_explicit q with
-    | [] => [7%nat]
-    | sel => match explicit_select elig sel with None => [] | Some _ => [7%nat] end
-    end
-  | ROtherError =>
-    match q_explicit q with
-    | [] => []
-    | sel => match explicit_select elig sel with None => [8%nat] | Some _ => [] end
-    end
+  | RError => []
   end.
 
 (** Differences in the ARRANGEMENT of an automatic selection.  Which eligible
@@ -102,7 +105,10 @@ Definition req_fail (q : creq) : list nat :=
     eligible outputs satisfies it), so these are counted in the evidence and
     are not correspondence failures:
      3 largest-first: the inputs are not the largest |inputs| eligible amounts
-     4 random: an input does not yield positively at the requested fee rate *)
+     4 random: an input does not yield positively at the requested fee rate
+     9 an error although the model's explicit selection accepts (the error
+       may come from the authoring step, which is outside this model)
+    10 explicit selection: same inputs, another order *)
 Definition req_soft (q : creq) : list nat :=
   let r := request_of q in
   let elig := eligible (q_ctx q) r (q_cands q) in
@@ -118,7 +124,13 @@ Definition req_soft (q : creq) : list nat :=
       let yielding := map c_op (List.filter (yields (q_rate q)) elig) in
       flag (forallb (fun op => bool_decide (op ∈ yielding)) ins) 4%nat
     end
-  | _, _ => []
+  | ROk ins, sel =>
+    match explicit_select elig sel with
+    | Some l => flag (bool_decide (map c_op l = ins) || negb (same_ops (map c_op l) ins)) 10%nat
+    | None => []
+    end
+  | RError, [] => []
+  | RError, sel => match explicit_select elig sel with Some _ => [9%nat] | None => [] end
   end.
 
 Definition req_ok (q : creq) : bool := match req_fail q with [] => true | _ => false end.
@@ -145,9 +157,13 @@ Fixpoint details_from (i : nat) (l : list (list creq)) : list (nat * nat * list 
 
 Definition details : list (list creq) -> list (nat * nat * list nat) := details_from 0.
 
+(** number of requests with the given soft code *)
+Definition soft_count_code (code : nat) (l : list (list creq)) : nat :=
+  length (List.filter (fun q => bool_decide (code ∈ req_soft q)) (concat l)).
+
 (** number of requests whose arrangement differs from the model's *)
 Definition soft_count (l : list (list creq)) : nat :=
-  length (List.filter (fun q => match req_soft q with [] => false | _ => true end) (concat l)).
+  (soft_count_code 3 l + soft_count_code 4 l)%nat.
 
 (** number of automatic largest-first / random results compared *)
 Definition soft_compared (l : list (list creq)) : nat :=
